@@ -133,7 +133,8 @@ def gen_case(rng, n_ops):
     def establish(p):
         c = next_conn[0]
         next_conn[0] += 1
-        ops.append(f"ev established {p} {c}")
+        dead = rng.random() < 0.06
+        ops.append(f"ev established {p} {c}" + (" dead" if dead else ""))
         if len(conns.get(p, [])) < 2:
             first = not conns.get(p)
             conns.setdefault(p, []).append(c)
